@@ -434,6 +434,10 @@ impl Allocator for Arena {
 
   #[inline]
   fn increase_discarded(&self, size: u32) {
+    if self.ro {
+      return;
+    }
+
     #[cfg(feature = "tracing")]
     tracing::debug!("discard {size} bytes");
 
@@ -452,6 +456,10 @@ impl Allocator for Arena {
 
   #[inline]
   fn set_minimum_segment_size(&self, size: u32) {
+    if self.ro {
+      return;
+    }
+
     self
       .header()
       .min_segment_size
